@@ -75,6 +75,9 @@ fn read_field<R>(reader: &mut R, dst: &mut String) -> io::Result<(usize, bool)>
 where
     R: BufRead,
 {
+    #[cfg(kani)]
+    use self::verif_kani::memchr2_model as memchr2;
+    #[cfg(not(kani))]
     use memchr::memchr2;
 
     const DELIMITER: u8 = b'\t';
